@@ -130,9 +130,9 @@ def cmd_run(a):
     for fp, (kf, n) in known_hits.items():
         print(f"KNOWN-FINDING: property={a.prop} {kf['what']} (fingerprint {fp}, {n} runs)", flush=True)
     replays = []
-    for fp, lst in list(reported.items())[:5]:
+    for fp, lst in list(reported.items())[:3]:   # one replay file per distinct clause, at most three
         for k, scn, v in lst:
-            small, steps = engine.minimise(mod, ns, scn, fp, budget_s=45)
+            small, steps = engine.minimise(mod, ns, scn, fp, budget_s=20)
             res = mod.execute(ns, small)
             v2 = res.violations[0] if res.violations else v
             path = engine.write_replay(a.prop, batch_seed, k, small, v2, res.digest(),
